@@ -69,6 +69,24 @@ theorem invertAll_total {c : RevCfg} {root : Root}
       obtain ⟨r, hr⟩ := Option.isSome_iff_exists.1 this
       exact ⟨some r :: xs, by simp [invertAll, invertOne, hr, hxs]⟩
 
+theorem invertAll_error_of_refused {c : RevCfg} {root : Root} {q : Rat}
+    (hq : some q ∈ ys) (hnone : root (fun x => c.f x - q) c.lo c.hi = none) :
+    ∃ e, invertAll c root ys = .error e := by
+  induction ys with
+  | nil => cases hq
+  | cons y ys ih =>
+    simp only [invertAll]
+    rcases List.mem_cons.1 hq with h | h
+    · subst h
+      simp only [invertOne, hnone]
+      exact ⟨_, rfl⟩
+    · cases h1 : invertOne c root y with
+      | error e => exact ⟨e, rfl⟩
+      | ok x =>
+        obtain ⟨e, he⟩ := ih h
+        rw [he]
+        exact ⟨e, rfl⟩
+
 theorem mem_finiteOf {ys : List Y} {q : Rat} : q ∈ finiteOf ys ↔ some q ∈ ys := by
   unfold finiteOf
   simp [List.mem_filterMap]
